@@ -22,7 +22,7 @@
          (C16_rejected_unchanged_refuted_specialise, C16_rejected_unchanged_refuted_partial_update). *)
 From Coq Require Import List Arith Bool String NArith.
 Import ListNotations.
-From PV Require Import C16.GenTables C16.Model C16.Names C16.Inv C16.MergeProofs C16.RenameProofs C16.StateInv C16.Proofs C16.Witness C16.CodeBlocks.
+From PV Require Import C16.GenTables C16.Model C16.Names C16.Inv C16.MergeProofs C16.RenameProofs C16.StateInv C16.Proofs C16.Witness C16.CodeBlocks C16.ExecCB C16.CodeBlocksInv.
 Open Scope string_scope.
 Open Scope list_scope.
 
@@ -373,3 +373,87 @@ Example C16_merge_unrenameable_nonvacuous :
                map (fun s => s_name (hget (m_heap m) s)) (sids (m_self m)) = ["y"; "first"; "X_1"; "X"]).
 Proof. exact merge_unrenameable_nonvacuous. Qed.
 Print Assumptions C16_merge_unrenameable_nonvacuous.
+
+(* ---- the invariants over ALL histories of the CodeBlock-aware step (ExecCB.step_cb, run_cb = fold_left),
+   by simulation: every operation other than merge is Model.step or a CodeBlock refusal that changes
+   nothing.  PARTIAL: histories without merge (no_merge ops); missing: the merge invariant (MergeProofs.MI)
+   re-established for merge_cb, where a CodeBlock refusal can also stop a merge half-way ---- *)
+Theorem C16_unique_names_inv_cb_partial : forall cbs n ops T,
+    no_merge ops = true ->
+    let st := run_cb cbs (init_state n) ops in
+    In T (all_tables st) ->
+    NoDup (keys T) /\ NoDup (sids T) /\
+    (forall k s, In (k, s) (t_syms T) -> k = normalize (s_name (hget (st_heap st) s))) /\
+    (forall k1 s1 k2 s2, In (k1, s1) (t_syms T) -> In (k2, s2) (t_syms T) ->
+                         normalize (s_name (hget (st_heap st) s1)) = normalize (s_name (hget (st_heap st) s2)) ->
+                         s1 = s2).
+Proof. exact unique_names_inv_cb_. Qed.
+Print Assumptions C16_unique_names_inv_cb_partial.
+
+Theorem C16_tags_never_stale_cb_partial : forall cbs n ops T,
+    no_merge ops = true -> In T (all_tables (run_cb cbs (init_state n) ops)) ->
+    NoDup (map fst (t_tags T)) /\ forall tg s, In (tg, s) (t_tags T) -> In s (sids T).
+Proof. exact tags_never_stale_cb_. Qed.
+Print Assumptions C16_tags_never_stale_cb_partial.
+
+Theorem C16_lookup_innermost_cb_partial : forall cbs n ops t T name s,
+    no_merge ops = true ->
+    let st := run_cb cbs (init_state n) ops in
+    get_table st t = Some T ->
+    (lookup T (ancestors st t) name = Some s <->
+     exists pre T' post, T :: ancestors st t = pre ++ T' :: post /\
+                         (forall P, In P pre -> ~ In (normalize name) (keys P)) /\
+                         find_key (normalize name) (t_syms T') = Some s) /\
+    (lookup T (ancestors st t) name = Some s ->
+     normalize (s_name (hget (st_heap st) s)) = normalize name).
+Proof. exact lookup_innermost_cb_. Qed.
+Print Assumptions C16_lookup_innermost_cb_partial.
+
+Theorem C16_step_cb_simulation : forall cbs st o,
+    is_merge o = false ->
+    step_cb cbs st o = step st o \/
+    (exists t s name, o = ORename t s name /\ step_cb cbs st o = (st, RErr ESymbol)).
+Proof. exact step_cb_sim. Qed.
+Print Assumptions C16_step_cb_simulation.
+
+Theorem C16_rejected_unchanged_cb_partial : forall cbs st o st' e,
+    is_merge o = false -> step_cb cbs st o = (st', RErr e) -> st' = st.
+Proof. exact rejected_unchanged_cb_. Qed.
+Print Assumptions C16_rejected_unchanged_cb_partial.
+
+(* general form of the up-front rejection: any number of clashing pairs; as soon as one non-skipped pair
+   that has to be resolved by renaming cannot be (both dry runs fail, or the first raises something else
+   than SymbolError), check_for_clashes raises -- at that pair or an earlier one -- and merge returns with
+   heap and tables untouched.  Partial only in: no unresolved symbol of the receiving table is named like an
+   intrinsic (else symbols may have been specialised before the raise: open finding A). *)
+Theorem C16_merge_unrenameable_clash_rejected_upfront_general_partial : forall cb h self anc other skip os ts,
+    no_intrinsic_unresolved h self ->
+    In os (sids other) -> ~ In os skip ->
+    find_key (normalize (s_name (hget h os))) (t_syms self) = Some ts ->
+    needs_rename h ts os -> unrenameable_pair cb h self other ts os ->
+    exists e, check_for_clashes_cb cb h self anc other skip = (h, Some e) /\
+              merge_cb cb h self anc other skip = (mkM h self other, MRejected, Some e).
+Proof. exact merge_unrenameable_clash_rejected_upfront_. Qed.
+Print Assumptions C16_merge_unrenameable_clash_rejected_upfront_general_partial.
+
+Example C16_invariants_cb_nonvacuous :
+  no_merge cbi_ops = true /\
+  map snd (map (step_cb [["x"; "a"]; []] (run_cb [["x"; "a"]; []] (init_state 2) (firstn 3 cbi_ops)))
+               [ORename (TSlot 0) 1 "z"; ORename (TSlot 1) 0 "q"; ORename (TSlot 0) 2 "B"])
+  = [RErr ESymbol; RErr ESymbol; RErr ESymbol] /\
+  map s_name (st_heap (run_cb [["x"; "a"]; []] (init_state 2) cbi_ops)) = ["a"; "x"; "A"] /\
+  map s_name (st_heap (run_cb [[]; []] (init_state 2) cbi_ops)) = ["q"; "z"; "x"].
+Proof. exact invariants_cb_nonvacuous. Qed.
+Print Assumptions C16_invariants_cb_nonvacuous.
+
+Example C16_merge_upfront_general_nonvacuous :
+  exists T Ot,
+    get_table cbg_st (TSlot 0) = Some T /\ nth_error (st_det cbg_st) 0 = Some Ot /\
+    no_intrinsic_unresolved (st_heap cbg_st) T /\ In 4 (sids Ot) /\
+    find_key (normalize (s_name (hget (st_heap cbg_st) 4))) (t_syms T) = Some 1 /\
+    needs_rename (st_heap cbg_st) 1 4 /\ unrenameable_pair ["x"] (st_heap cbg_st) T Ot 1 4 /\
+    merge_cb ["x"] (st_heap cbg_st) T [] Ot [] = (mkM (st_heap cbg_st) T Ot, MRejected, Some ESymbol) /\
+    (exists m, merge_cb [] (st_heap cbg_st) T [] Ot [] = (m, MDone, None) /\
+               map (fun s => s_name (hget (m_heap m) s)) (sids (m_self m)) = ["b"; "B_1"; "first"; "X_1"; "X"]).
+Proof. exact merge_upfront_general_nonvacuous. Qed.
+Print Assumptions C16_merge_upfront_general_nonvacuous.
